@@ -31,6 +31,25 @@ func (i *interpreter) intercept(fn *ssa.Function, name string) externalFn {
 
 func (i *interpreter) newVar(name, kind string, k types.BasicKind) value {
 	sort, _ := kindInfo(k)
+	if i.cfg.Concrete != nil {
+		var bits uint64
+		if i.concPos < len(i.cfg.Concrete) {
+			bits = i.cfg.Concrete[i.concPos].Bits
+		}
+		i.concPos++
+		var t *Term
+		switch {
+		case sort == SBool:
+			t = i.st.Bool(bits == 1)
+		case sort.IsBV():
+			t = i.st.BV(sort.Width(), bits)
+		case sort == SF64:
+			t = i.st.mk(OpConst, SF64, bits, "")
+		default:
+			t = i.st.mk(OpConst, SF32, bits&0xffffffff, "")
+		}
+		return constToValue(t, k)
+	}
 	t := i.st.Var(name, sort)
 	i.nondets = append(i.nondets, NondetRec{Name: name, Kind: kind, T: t})
 	return &Sym{T: t, K: k}
@@ -63,8 +82,19 @@ func init() {
 			if hi < lo {
 				i.abort(abortPruned, "empty verifIntRange")
 			}
-			c := i.choose(int(hi-lo+1), "range:"+nameArg(a[0]))
-			v := lo + int64(c)
+			var v int64
+			if i.cfg.Concrete != nil {
+				if i.concPos < len(i.cfg.Concrete) {
+					v = int64(i.cfg.Concrete[i.concPos].Bits)
+				}
+				i.concPos++
+				if v < lo || v > hi {
+					v = lo
+				}
+			} else {
+				c := i.choose(int(hi-lo+1), "range:"+nameArg(a[0]))
+				v = lo + int64(c)
+			}
 			i.nondets = append(i.nondets, NondetRec{Name: nameArg(a[0]), Kind: "choice", Conc: v})
 			return int(v)
 		},
@@ -139,6 +169,42 @@ func init() {
 			// verifConcrete(x int) int: enumerate a symbolic int within [0, MaxEnum]
 			return int(fr.i.concInt(a[0], 0, int64(fr.i.cfg.MaxEnum), "verifConcrete"))
 		},
+		"verifTrace": func(fr *frame, a []value) value {
+			fr.i.trace = append(fr.i.trace, nameArg(a[0])+"="+traceRender(a[1]))
+			return nil
+		},
 		"verifIsSymbolicRun": func(fr *frame, a []value) value { return true },
 	}
+}
+
+func traceRender(v value) string {
+	if it, ok := v.(iface); ok {
+		v = it.v
+	}
+	switch x := v.(type) {
+	case string:
+		return fmt.Sprintf("%q", x)
+	case nil:
+		return "<nil>"
+	case []value:
+		var parts []string
+		for _, e := range x {
+			parts = append(parts, traceRender(e))
+		}
+		return "[" + strings.Join(parts, " ") + "]"
+	case structure:
+		var parts []string
+		for _, e := range x {
+			parts = append(parts, traceRender(e))
+		}
+		return "{" + strings.Join(parts, " ") + "}"
+	case *value:
+		if x == nil {
+			return "<nil>"
+		}
+		return "&" + traceRender(*x)
+	case bool, int, int8, int16, int32, int64, uint, uint8, uint16, uint32, uint64, uintptr, float32, float64:
+		return fmt.Sprint(x)
+	}
+	return toString(v)
 }
